@@ -29,7 +29,9 @@ DATE_SETS = [{"d2017": 2017.3, "d2022": datetime.date(2022, 10, 19), "d2027": 20
              {"d2017": 2019.9, "d2022": 2020.0, "d2027": 2025.0}]
 DATES = dict(DATE_SETS[0])
 PLACES = {"munich": (48.1372, 11.5755, 0.519), "lat0": (0.0, 11.5, 0.0), "lon0": (48.0, 0.0, 0.5), "northpole": (90.0, 0.0, 0.0),
-          "southpole": (-90.0, 45.0, 1.0), "lon180": (-30.0, 180.0, 10.0)}
+          "southpole": (-90.0, 45.0, 1.0), "lon180": (-30.0, 180.0, 10.0),
+          # the same latitude and longitude as "munich", 400 km higher (consecutive queries that differ in height only)
+          "munich400": (48.1372, 11.5755, 400.519)}
 KEYS = ["X", "Y", "Z", "H", "F", "I", "D", "GV"]
 
 
@@ -119,6 +121,16 @@ def replay_behaviours(behs):
             got = elems(obj)
             ref = reference(*want)
             bad = consistent(got, frame, want[1])
+            # every public accessor reports the same answer: the vector accessor and the attributes against the elements dictionary
+            if not bad:
+                try:
+                    gv = np.asarray(obj.geodetic_vector, dtype=float).ravel()
+                    if gv.shape != (3,) or not np.array_equal(gv, np.array(got[:3])):
+                        bad = "geodetic_vector-differs-from-elements"
+                    elif any(float(getattr(obj, k_)) != v_ for k_, v_ in zip(KEYS[:7], got[:7])):
+                        bad = "attributes-differ-from-elements"
+                except Exception as e_:  # noqa
+                    bad = "accessor-raises-%s" % type(e_).__name__
             if bad:
                 t.fail("C15|%s|%s|%s" % (act, bad, want[1] if want[1] in ("lat0", "lon0", "northpole", "southpole") else "any-place"), {"history": acts, "elements": got})
             if got == ref:
